@@ -278,6 +278,33 @@ def exec_children(children, stream_names):
     return out
 
 
+def exec_children_named(names, mnemonic, follow="END"):
+    """Node::exec on a Branch whose children are leaves with the given concrete names, at a header mnemonic with the
+    given concrete text (followed by END): the real matching code runs (folded)."""
+    key = "execnamed"
+    if key not in _CACHE:
+        base = _inline
+
+        def inl(n, r):
+            return base(n, r) or r.startswith(("scpi::parser::tokenizer::util::", "scpi::parser::tokenizer::token::Token::"))
+        e = engine(inline=inl)
+        e.loop_limit = 64
+        _CACHE[key] = e
+    eng = _CACHE[key]
+    body = eng.unit.body(EXEC)
+    st = fdai.State()
+    tok = fdai.mk_ok(M.token(eng, "ProgramMnemonic", [RefV(Cell(fdai.BytesV(bytes(mnemonic)), "mnemonic"))]))
+    M.set_stream(st, [tok, M.item(eng, follow) if follow != "END" else M.END, M.UNKNOWN])
+    cells = []
+    for i, nm in enumerate(names):
+        node = EnumV(NODE, "Leaf", eng.variant_discr(NODE, "Leaf"), {0: RefV(Cell(fdai.BytesV(bytes(nm)), "name%d" % i)), 1: K(False), 2: SymV("handler%d" % i, "handler")})
+        cells.append(Cell(node, "child%d" % i))
+    parent = EnumV(NODE, "Branch", eng.variant_discr(NODE, "Branch"), {0: SymV("node-name", "name"), 1: K(False), 2: RefV(Cell(fdai.ListV(cells), "sub"))})
+    args, leafcell, selfcell = mk_args(parent)
+    st.extra["cells"] = {"leaf": leafcell, "self": selfcell}
+    return [PathInfo(r) for r in eng.run(body, args, st)]
+
+
 def closure_kind(eng, defpath):
     """Classify a `find` predicate closure over Node by FDAI: returns the set of (kind, default) it accepts."""
     body = eng.find_body(defpath)
